@@ -57,7 +57,7 @@ func worlds() []wspec {
 		{Name: "short-eq4-c3i2-drypool", Powers: eq4, Cycle: 3, Interval: 2, EstSecs: 51, Window: 60, Supplies: []int64{90, 60}, Burnout: 5, Pool: 1,
 			YearClose: []int64{80, 130}, Quick: true, Note: "year 1 closes at +80 s, year 2 at +130 s (close window 60 s > one cycle of 51 s); rewards pool of 1 OLT: below the burn-out rate, dry after one withdrawal, above the rate after a donation"},
 		{Name: "long-skew-c3i2", Powers: skew, Cycle: 3, Interval: 2, EstSecs: 51, Window: 3600, Supplies: []int64{40000000, 20000000}, Burnout: 5, Pool: 1000000,
-			Quick: true, Note: "calendar years; about 21 OLT per block at the default speed"},
+			Quick: true, Unstake: true, Note: "calendar years; about 21 OLT per block at the default speed; V2 may drop out of the validator set or raise its stake"},
 		{Name: "long-eq4-c2i3-drypool", Powers: eq4, Cycle: 2, Interval: 3, EstSecs: 34, Window: 3600, Supplies: []int64{40000000, 20000000}, Burnout: 5, Pool: 3,
 			Quick: true, Note: "calendar years; rewards pool of 3 OLT, below the burn-out rate"},
 		// cycle = 34 s: year 1 in blocks 1-4, year 2 in blocks 5-8, burn-out from block 9
@@ -138,6 +138,7 @@ const (
 	opDonateDeleg   = "donate-delegpool"  // Users[2] sends 4000 OLT to the delegation pool (nobody's delegation: dilutes)
 	opDonateRewards = "donate-rewardpool" // Users[2] sends 9 OLT to the rewards pool
 	opUnstake       = "unstake-V2"        // Vals[1] unstakes 450 000 OLT: lower power (equal worlds) / below the minimum, out of the set (2:1:7 worlds)
+	opStakeMore     = "stake-more-V2"     // Vals[1] stakes 2 000 000 OLT more: for two blocks its stake record is ahead of the power in the commits
 	opWOne          = "withdraw-1"        // Vals[0] withdraws 1 OLT of its matured rewards
 	opWAll          = "withdraw-all"      // Vals[0] withdraws floor(matured, not yet withdrawn) whole OLT (the largest expressible amount <= matured)
 	opWOver         = "withdraw-over"     // Vals[0] withdraws one OLT more than that (> matured: must fail)
@@ -179,6 +180,9 @@ func (s *wspec) events() []event {
 		// only where the pool is small enough for a donation to change the regime
 		{Name: opDonateRewards, Op: opDonateRewards, NA: s.Pool >= 1000},
 		{Name: opUnstake, Op: opUnstake, NA: !s.Unstake},
+		// (added after a seeded change - the share numerator taken from the stake record instead of the commit -
+		// escaped the alphabet in which no power ever went UP)
+		{Name: opStakeMore, Op: opStakeMore, NA: !s.Unstake},
 		{Name: opWOne, Op: opWOne},
 		{Name: opWAll, Op: opWAll},
 		{Name: opWOver, Op: opWOver},
@@ -209,6 +213,8 @@ func buildTx(w *harness.World, op string, pos int, floorMaturedOLT int64) *harne
 		return stk.SendPool(w.Users[2], "RewardsPool", stk.OLT(9), memo)
 	case opUnstake:
 		return stk.Unstake(w.Vals[1].Val, w.Vals[1].Stake, stk.WholeOLT(450000), memo)
+	case opStakeMore:
+		return stk.Stake(w.Vals[1], w.Vals[1].Stake, stk.WholeOLT(2000000), memo)
 	case opWOne:
 		return stk.WithdrawReward(w.Vals[0].Val.Addr, w.Vals[0].Stake, stk.WholeOLT(1), memo)
 	case opWAll:
